@@ -1331,9 +1331,6 @@ fn run_history(case: &Value) -> Value {
             *cur_step.borrow_mut() = 1000 + 10 * k + 3;
             let rest: Vec<&str> = args[2..].iter().map(|x| x.as_str()).collect();
             repeat = probe(&metadata, &after, &rest, remote);
-            if let Some(o) = repeat.as_object_mut() {
-                o.remove("files");
-            }
         }
         for p in [&mut post_check, &mut post_locked] {
             if let Some(o) = p.as_object_mut() {
